@@ -152,7 +152,7 @@ func runLimiter(sc lScript) (rec lRec) {
 		return true
 	}
 	waitReset := func() bool {
-		deadline := time.Now().Add(3 * time.Second)
+		deadline := time.Now().Add(scaled(3 * time.Second))
 		for time.Now().Before(deadline) {
 			if allDead() {
 				return true
@@ -193,7 +193,7 @@ func runLimiter(sc lScript) (rec lRec) {
 				// microseconds); if the sentinels of the other procedures stay alive, the counters of this procedure were
 				// wiped by the message itself (not by the ticker): keep the message, note it, and re-arm the sentinel.
 				tick := false
-				deadline := time.Now().Add(25 * time.Millisecond)
+				deadline := time.Now().Add(scaled(40 * time.Millisecond))
 				for time.Now().Before(deadline) {
 					if allDead() {
 						tick = true
@@ -246,7 +246,7 @@ func runLimiter(sc lScript) (rec lRec) {
 				close(released)
 			}()
 			tick := false
-			deadline := time.Now().Add(1500 * time.Millisecond)
+			deadline := time.Now().Add(scaled(1500 * time.Millisecond))
 			for time.Now().Before(deadline) {
 				if !alive(other) {
 					tick = true
